@@ -236,6 +236,17 @@ def rng(prog, an=None, files=None, table=None):
                 if w[0] in seen_:
                     stats['uncut'] = stats.get('uncut', 0) + 1
                     uncut.append('%s:%d %s %s' % (fn.file, n['l'], fn.q, construct))
+                    ent = table.get((fn.file, fn.q, construct.split('#')[0]))
+                    if ent:
+                        obs.append(Ob('R-RNG', fn.file, n['l'], fn.q, construct, OBSERVATION,
+                                      'checked on some paths only; triaged as not truncating: %s' % ent))
+                    else:
+                        obs.append(Ob('R-RNG2', fn.file, n['l'], fn.q, construct, VIOLATED,
+                                      '`%s` is masked to bits %#x, and a path from the start of %s reaches this mask without passing '
+                                      'any test of the value that ends in an error (the existing range checks sit on other '
+                                      'paths): on that path an operand that does not fit the %d-bit field is silently '
+                                      'truncated' % (rtxt, U, fn.q, wbits)))
+                    continue
             if checked is not None or anywhere is not None:
                 cn = checked or anywhere
                 obs.append(Ob('R-RNG', fn.file, n['l'], fn.q, construct, OBSERVATION,
